@@ -1,6 +1,6 @@
 (* Correspondence cases for C11. *)
 From Coq Require Import List NArith ZArith Bool.
-From PyD Require Export Base.Str Model.Tsdb Model.Tsql Corr.Common.
+From PyD Require Export Base.Str Model.Tsdb Model.TsdbDate Model.Tsql Corr.Common.
 Import ListNotations.
 
 Definition op_eqb (a b : cmpop) : bool :=
@@ -9,7 +9,12 @@ Definition op_eqb (a b : cmpop) : bool :=
   | _, _ => false
   end.
 Definition lit_eqb (a b : lit) : bool :=
-  match a, b with LInt x, LInt y => Z.eqb x y | LStr x, LStr y => str_eqb x y | _, _ => false end.
+  match a, b with
+  | LInt x, LInt y => Z.eqb x y
+  | LStr x, LStr y => str_eqb x y
+  | LDate x, LDate y => match dt_cmp x y with Eq => true | _ => false end
+  | _, _ => false
+  end.
 
 Fixpoint cond_eqb (a b : cond) : bool :=
   match a, b with
